@@ -496,10 +496,12 @@ def probeGeometry (m : Media) (fmt : Format) (total : Nat) (cands : List ImgFmt)
     else possible
   minElement fmtLess possible
 
-def endsWith (s suffix : String) : Bool := s.endsWith suffix
+/-- `ends_with` — on the characters of the name -/
+def endsWith (s suffix : String) : Bool := suffix.toList.isSuffixOf s.toList
 
 /-- `remove_suffix(&name, ".gz")` -/
-def stripGz (name : String) : String := if name.endsWith ".gz" then (name.dropEnd 3).toString else name
+def stripGz (name : String) : String :=
+  if endsWith name ".gz" then String.ofList (name.toList.take (name.toList.length - 3)) else name
 
 /-- `make_candidate_list` (after the repair: hints come from the name without `.gz`) -/
 def candidateList (fileName : String) : List ImgFmt :=
